@@ -16,11 +16,11 @@
 #ifndef N
 #define N 3
 #endif
-#define HOST "h.nu"
-#define HL 4
+#define HOST "h"
+#define HL 1
 #define AL (N + 1 + HL)            /* address length */
 #define QL (2 * N + 2 + 1 + HL)    /* longest quoted form */
-#define NTOK (N + 8)               /* To : <local tokens> @ h . nu */
+#define NTOK (N + 5)               /* To : <local tokens> @ h */
 
 unsigned char lp[N + 1];
 
@@ -41,19 +41,26 @@ static token822_alloc ta_in = { b_in, 0, NTOK }, ta_out = { b_out, 0, NTOK + 2 }
 static stralloc parsebuf, got;
 static unsigned int n_addr;
 
-static int collect(token822_alloc *addr)       /* what qmail-inject's rwappend() does with each address */
+/* The callback is expanded at every place where token822_addrlist() may complete an
+ * address; it only takes a snapshot of the first address (cheap); the unquoting that
+ * qmail-inject's rwappend() does inside its callback is done on the snapshot afterwards. */
+static struct token822 snap[NTOK]; static unsigned int snap_len;
+
+static int collect(token822_alloc *addr)
 {
-  ++n_addr;
-  token822_reverse(addr);                      /* addrlist hands the tokens over right-to-left */
-  CHECK(token822_unquote(&got, addr) == 1, "token822_unquote succeeds");
-  token822_reverse(addr);
+  unsigned int k;
+  if (n_addr++ == 0) {
+    CHECK(addr->len <= NTOK, "address fits the token buffer (harness sizing)");
+    snap_len = addr->len;
+    for (k = 0; k < NTOK; ++k) snap[k] = addr->t[k];
+  }
   return 1;
 }
 
 void vmain(void)
 {
   static char a[AL + 1];
-  static char hbuf[4 + QL + 2];
+  static char hbuf[3 + QL + 2];
   static stralloc q, hdr;
   static const char host[] = HOST;
   unsigned int i, n = 0;
@@ -77,7 +84,7 @@ void vmain(void)
   ASSUME(q.len <= QL);
   if (q.len && q.s[0] == '"') quoted = 1;
 
-  hbuf[n++] = 'T'; hbuf[n++] = 'o'; hbuf[n++] = ':'; hbuf[n++] = ' ';
+  hbuf[n++] = 'T'; hbuf[n++] = 'o'; hbuf[n++] = ':';
   for (i = 0; i < QL; ++i) { if (i >= q.len) break; hbuf[n++] = q.s[i]; }
   hbuf[n++] = '\n';
   hdr.s = hbuf; hdr.len = n; hdr.a = sizeof hbuf;
@@ -85,6 +92,12 @@ void vmain(void)
   CHECK(token822_parse(&ta_in, &hdr, &parsebuf) == 1, "C17: the quoted address parses as an RFC 822 header field");
   CHECK(token822_addrlist(&ta_out, &ta_addr, &ta_in, collect) == 1, "C17: ... and as an address list");
   CHECK(n_addr == 1, "C17: exactly one address is found");
+  {
+    token822_alloc one;
+    one.t = snap; one.len = snap_len <= NTOK ? snap_len : 0; one.a = NTOK;
+    token822_reverse(&one);                    /* addrlist hands the tokens over right-to-left */
+    CHECK(token822_unquote(&got, &one) == 1, "token822_unquote succeeds");
+  }
   CHECK(got.len == AL, "C17: the address found has the length of the original");
   for (i = 0; i < AL; ++i) {
     if (i >= got.len) break;
